@@ -121,6 +121,46 @@ def subjects():
         for lazy in (False, True):
             out.append((f"module-level name of a nested dataclass re-bound after the holder was defined ({kind} mixin, lazy={lazy})", rebound(kind, lazy)))
 
+    def generic_two_modules(first, lazy, plain_box):
+        """ONE generic dataclass specialised with two DISTINCT classes that share their short name and live in two modules
+        (shop.Item / warehouse.Item), in either order of first compilation: each specialisation is its own class"""
+        def build():
+            import sys
+            from mashumaro.config import BaseConfig
+            tag = f"{first}_{int(lazy)}_{int(plain_box)}"
+            mods = {}
+            for mn, fields in (("shop", [("sku", str), ("price", int)]), ("warehouse", [("sku", int), ("bin", str, dataclasses.field(default="b"))])):
+                modname = f"mverif_{mn}_{tag}"
+                mod = types.ModuleType(modname)
+                sys.modules[modname] = mod
+                Item = dataclasses.make_dataclass("Item", fields, namespace={"__module__": modname})
+                Item.__module__ = modname
+                mod.Item = Item
+                mods[mn] = mod
+            T = typing.TypeVar("T")
+            gmodname = f"mverif_models_{tag}"                 # Box and Holder are ordinary module-level classes of a third module
+            gmod = types.ModuleType(gmodname)
+            sys.modules[gmodname] = gmod
+            box_bases = (typing.Generic[T],) if plain_box else (DataClassDictMixin, typing.Generic[T])
+            Box = dataclasses.dataclass(types.new_class("Box", box_bases, {}, lambda ns: ns.update(
+                {"__annotations__": {"v": T, "vs": typing.List[T]}, "__module__": gmodname})))
+            gmod.Box = Box
+            SI, WI = mods["shop"].Item, mods["warehouse"].Item
+            ann = {"a": Box[SI], "b": Box[WI]} if first == "shop" else {"b": Box[WI], "a": Box[SI]}
+            ns = {"__annotations__": ann, "__module__": gmodname}
+            if lazy:
+                ns["Config"] = type("Config", (BaseConfig,), {"lazy_compilation": True})
+            Holder = dataclasses.dataclass(type("Holder", (DataClassDictMixin,), ns))
+            gmod.Holder = Holder
+            value = Holder(a=Box(SI("s", 1), [SI("t", 2)]), b=Box(WI(7), [WI(8, "c")]))
+            return Holder, value, {"a.v": SI, "b.v": WI, "a.vs.[0]": SI, "b.vs.[0]": WI}
+        return build
+    for first in ("shop", "warehouse"):
+        for lazy in (False, True):
+            for plain_box in (True, False):
+                out.append((f"one generic specialised with shop.Item and warehouse.Item ({first} first, lazy={lazy}, plain generic={plain_box})",
+                            generic_two_modules(first, lazy, plain_box)))
+
     def local_dialect():
         from mashumaro.config import ADD_DIALECT_SUPPORT, BaseConfig
         from mashumaro.dialect import Dialect
